@@ -928,7 +928,10 @@ class SArr(object):
 
     def copy(self):
         g = self._snapshot()
-        return SArr(self.axes, g, self.dtype, self.sel, self.mask, flat=self.flat)
+        c = SArr(self.axes, g, self.dtype, self.sel, self.mask, flat=self.flat)
+        if self.mask is not None and hasattr(self, "fill_value"):
+            c.fill_value = self.fill_value          # numpy.ma keeps the fill value across copy()/astype()
+        return c
 
     def _snapshot(self):
         get = self.store.get
@@ -1221,7 +1224,10 @@ def sarr_getitem(a, key):
     # process one non-trivial component at a time (the code under study does exactly that)
     nontrivial = [(d, k) for d, k in enumerate(key) if not _is_full_slice(k)]
     if not nontrivial:
-        return SArr(a.axes, None, a.dtype, a.sel, a.mask, store=a.store, flat=a.flat, tmap=a.tmap)
+        v = SArr(a.axes, None, a.dtype, a.sel, a.mask, store=a.store, flat=a.flat, tmap=a.tmap)
+        if a.mask is not None and hasattr(a, "fill_value"):
+            v.fill_value = a.fill_value
+        return v
     # all-scalar -> element
     if len(nontrivial) == len(a.axes) and all(not isinstance(k, (SArr, slice, WhereResult, WhereComp, RangeSel)) and not hasattr(k, "as_sel")
                                               and _index_scalar(a, k, a.axes[d]) is not None for d, k in nontrivial):
